@@ -18,6 +18,7 @@ def run(tier, seed):
     _setters(c, tier, seed)
     headfrag.run(c, tier, seed, ("roundtrip",))
     headfrag.run_entities(c, tier, seed, ("roundtrip",))
+    headfrag.run_mixed(c, tier, seed, ("roundtrip",))
     c.assumptions += ["tokenizer round trip is validated by testing, not proved (PARTIAL, see DESIGN.md C01)"]
     return c.finish()
 
